@@ -81,6 +81,18 @@ CLAIMED = {
         "note": "Trusted: refmodel/dtl.py. The comparison with thl at hgt=inf is C10's.",
         "technique": TECH_E2,
     },
+    "C08": {
+        "category": "exploration",
+        "text": "Enumerator: all 258 plane Schroeder shapes up to 6 leaves (named, partly coloured) - binarize() = the model's refinements as a set, "
+                "prod (2k-3)!! of them, each once, clades/names/colours/leaf names kept, argument untouched; ReconciliationInput.binarize() on all "
+                "<=3x<=3 shape pairs. End-to-end: every input with a polytomy in either tree, <=3x<=3 leaves (thorough: + 4-leaf objects with one "
+                "3-ary node), small synteny menus, ext_spfs and superdtl, ALL and ANY: optimum = minimum over all refinement pairs of the C02/C03 "
+                "oracle, ALL = union of the per-refinement optimal sets, solutions refer to genuine refinements with named new nodes.",
+        "design_ref": "6 (C08)",
+        "note": "Trusted: refmodel/refine.py and the C02/C03 oracles. Coherent costs only. A 4-leaf star on a 3-leaf star (45 refinement pairs per "
+                "case) is not enumerated with all assignments.",
+        "technique": TECH_E2,
+    },
     "C10": {
         "category": "exploration",
         "text": "Bounded-exhaustive differential check between the seven algorithms on every consistent labelled input of the slices "
